@@ -262,9 +262,9 @@ Inductive leaf :=
 | LUuidTfrf (version flags count : N) (entries : list (N * N))
 | LUuidSenc (flags count : N) (raw : list N) (readSize : N) (notParsed : bool)
 | LUuidUnk (uuid payload : list N)
-(* SgpdBox: Version Flags GroupingType DefaultLength DefaultGroupDescriptionIndex, per entry (description length, entry);
-   canon (ghost): the reserved byte of every seig entry was 0 *)
-| LSgpd (version flags : N) (gtype : list N) (dlen dgdi : N) (items : list (N * sge)) (canon : bool)
+(* SgpdBox: Version Flags GroupingType DefaultLength DefaultGroupDescriptionIndex, per entry (description length, entry); the
+   reserved byte that a seig entry skips is captured (one number per entry in chunk 0) *)
+| LSgpd (version flags : N) (gtype : list N) (dlen dgdi : N) (items : list (N * sge))
 (* --- stage 5 --- *)
 (* DataBox (mp4/ffmpeg.go, the value atom of an iTunes metadata item): typeIndicator, locale (kept by a decoded box since
    repo commit f36e540; before, they were skipped and written as 1 and 0: finding C01-F7), Data *)
@@ -302,7 +302,7 @@ Definition leaf_name (l : leaf) : list N :=
   | LHvcC _ _ _ _ _ _ _ _ _ _ _ _ _ _ _ _ => n_hvcC | LSubs _ _ _ => n_subs
   | LEsds _ _ _ _ _ _ _ _ _ _ _ _ => n_esds
   | LUuidTfxd _ _ _ _ => n_uuid | LUuidTfrf _ _ _ _ => n_uuid | LUuidSenc _ _ _ _ _ => n_uuid | LUuidUnk _ _ => n_uuid
-  | LSgpd _ _ _ _ _ _ _ => n_sgpd
+  | LSgpd _ _ _ _ _ _ => n_sgpd
   | LData _ _ _ => n_data | LMime _ _ _ _ => n_mime | LWvtt _ _ => n_wvtt
   | LDac3 _ _ _ _ _ _ _ _ _ => n_dac3 | LDec3 _ _ _ _ => n_dec3
   end.
@@ -1215,7 +1215,7 @@ Definition dec_sgpd (h : hdr) : parser (leaf * rsvT) :=
   pdo dgdi <- rd_if (2 <=? v) 4 ;;
   pdo cnt <- rd 4 ;;
   fun bs => (pdo its <- rd_many (S (length bs)) cnt (rd_sgpd_item v dlen gt) ;;
-             pret (LSgpd v (vf_flags vf) gt dlen dgdi (map fst its) (forallb (fun x => snd x =? 0) its), [map snd its])) bs.
+             pret (LSgpd v (vf_flags vf) gt dlen dgdi (map fst its), [map snd its])) bs.
 
 (* ================================================================ stage 5 *)
 (* vttC vlab ctim iden sttg payl vtta: `sr.ReadFixedLengthString(hdr.payloadLen())`, Size 8+len, the string written
@@ -1473,7 +1473,7 @@ Definition body_leaf (l : leaf) (r : rsvT) : res (list N) :=
       if negb np && has f 2 && (0 <? cnt) then Panic
       else Ok (uuid_piff ++ be_enc 4 (vf_join 0 f) ++ be_enc 4 cnt ++ (if senc_keeps np cnt rs then raw else []))
   | LUuidUnk u p => Ok (u ++ p)
-  | LSgpd v f gt dlen dgdi items _ =>
+  | LSgpd v f gt dlen dgdi items =>
       (* the reserved byte of a seig entry is written as 0: chunk 0 holds one byte per entry *)
       Ok (be_enc 4 (vf_join v f) ++ gt ++ wr_if (1 <=? v) 4 dlen ++ wr_if (2 <=? v) 4 dgdi ++ be_enc 4 (lenN items) ++
           flat_map (wr_sgpd_item dlen) (combine items (chunk 0 r)))
@@ -1509,7 +1509,7 @@ Definition dflt_rsv (l : leaf) : rsvT :=
   | LElng _ _ _ lang => [lang ++ [0]]
   | LHvcC _ _ _ _ _ _ _ _ _ _ _ _ _ _ _ _ => [[15]; [63]; [63]; [31]; [31]; []]
   | LEsds _ _ nb _ fl _ url _ dcd cs u _ => esds_dflt nb fl url dcd cs u
-  | LSgpd _ _ _ _ _ items _ => [map (fun _ => 0) items]
+  | LSgpd _ _ _ _ _ items => [map (fun _ => 0) items]
   | LWvtt _ _ => [zeros 6]
   | _ => []
   end.
@@ -1528,6 +1528,8 @@ Definition rsv_dc (l : leaf) : list bool :=
   (* the size fields of the descriptors are not reserved bits *)
   | LEsds _ _ nb _ fl _ url _ dcd cs u _ => map (fun _ => false) (esds_dflt nb fl url dcd cs u)
   | LWvtt _ _ => [true]
+  (* the reserved byte of the seig entries: ISO reserved *)
+  | LSgpd _ _ _ _ _ _ => [true]
   | _ => []
   end.
 
@@ -1602,7 +1604,7 @@ Definition size_leaf (l : leaf) : N :=
   | LUuidTfrf v _ cnt _ => 24 + 5 + (if negb (v =? 0) then 16 else 8) * cnt
   | LUuidSenc _ _ _ rs _ => 24 + (rs - 8)                  (* b.Senc.Size() - 8 *)
   | LUuidUnk _ p => 24 + lenN p
-  | LSgpd v _ _ dlen _ items _ =>
+  | LSgpd v _ _ dlen _ items =>
       20 + (if 1 <=? v then 4 else 0) + (if 2 <=? v then 4 else 0) +
       (if 1 <=? v then (if negb (dlen =? 0) then lenN items * dlen else sumN (map (fun it => 4 + fst it) items)) else 0)
   | LData _ _ d => 8 + 8 + lenN d
@@ -1926,7 +1928,6 @@ Definition leaf_guard (l : leaf) : bool :=
      kept UnknownData *)
   | LEsds _ _ _ _ _ _ _ _ _ _ _ canon => canon
   | LUuidSenc _ cnt raw rs np => senc_keeps np cnt rs || (lenN raw =? 0)
-  | LSgpd _ _ _ _ _ _ canon => canon
   (* a wvtt whose prefix was not there *)
   | LWvtt _ short => negb short
   | LDac3 _ _ _ _ _ _ _ _ canon => canon
